@@ -301,8 +301,9 @@ def bi_rectangle_zoned_nested(length_x, length_y, b_min, b_max_x, b_max_y):
     f_d = []
     for i in range(len(n_1_values) + len(n_2_values) - 1):
         if index_l == 0:
-            b_x = length_x / (n_min_1 - 1)
-            b_y = length_y / (n_min_2 - 1)
+            # spacings along the long and the short side (the shapes are built long side first and transposed back)
+            b_x = length_1 / (n_min_1 - 1)
+            b_y = length_2 / (n_min_2 - 1)
 
             # go from one borehole to a line
             for index_l in range(1, n_min_1 + 1):
